@@ -449,6 +449,17 @@ theorem obs_safe_needed :
     (ModuleTree.apply {} 10 (eraseSow readsOwnSow) .tt Vars.empty [] 0).result.toOption.map (·.1) = some 0 := by
   decide +kernel
 
+/-! ## the evaluator's fuel is not a hidden hypothesis -/
+
+/-- **More fuel never changes a result.** Every theorem above holds for every amount of fuel; a run
+that did not stop with the explicit out-of-fuel error is reproduced exactly by any larger amount, so
+the outcomes the drivers compute (with far more fuel than any program needs) are the outcomes of
+every sufficient fuel. -/
+theorem more_fuel_same_result (cfg : Cfg) (fuel : Nat) (p : SProg) (π : Path) (x : Int) (l : Local) (s : Store)
+    (h : (eval cfg fuel p π x l s).1 ≠ .error .fuel) :
+    eval cfg (fuel + 1) p π x l s = eval cfg fuel p π x l s :=
+  eval_fuel_mono cfg fuel p π x l s h
+
 /-! ## non-vacuity: a concrete program with params, a counter, running statistics, sow and children -/
 
 /-- `Top`: param w[2]=3; child A (auto-named) holding a counter in 'stats' and sowing its input;
@@ -492,6 +503,15 @@ example : eval demoCfg 1 (.put "stats" "cnt" (.const 1)) ["A_0"] 0 {} (Scope.bin
 
 /-- hypotheses of `immutable_param_init_raises`: a missing parameter under `mutable=False` -/
 example : (scopeParam [] "nope" [2] 1 [] (Scope.bind .ff demoV [])).1 = .error .paramNotFound := by decide +kernel
+
+/-- hypothesis of `more_fuel_same_result`: the demo run does not run out of fuel with 100 units -/
+example : (eval demoCfg 100 demo [] 5 {} (Scope.bind initDefault Vars.empty ["params"])).1 ≠ .error .fuel := by
+  decide +kernel
+
+/-- `observe_noninterference` instance: `demo` is observation-safe, and without its `sow` it returns the same 25 -/
+example : ObsSafe demoCfg demo ∧
+    (ModuleTree.init (quiet demoCfg) 100 (eraseSow demo) initDefault ["params"] 5).result.toOption.map (·.1) = some 25 := by
+  decide +kernel
 
 /-- hypotheses of `perturb_absent_identity` -/
 example : modulePerturb [] "perturbations" "p" 7 [] (Scope.bind .ff demoV []) = (.ok (7, []), Scope.bind .ff demoV []) := by
